@@ -28,8 +28,8 @@ their side condition for every expression that parses.
 All of this is about `Re.exec` on the pattern wax prints.  The driver's match command runs
 `Re.exec` on the `regex-syntax` normal form (`Re.hirNorm`), whose top-level concatenation is not the
 list of tokens any more (sites are prefix-factored, literals fused); `exec_runs`, `runs_touch` and
-`exec_tiling` apply to it as to any `Re`, the token-level reading does not carry over without a
-derivation-level version of `hirNorm_lang`.
+`exec_tiling` apply to it as to any `Re`; the token-level reading is carried over to the normal form by
+`Wax/Proofs/HirRuns.lean` (`hirNorm_runs`: a derivation of the normal form is one of the printed pattern).
 -/
 namespace Wax
 
